@@ -372,14 +372,14 @@ Definition start_reading (c : nat) (x : cx) : cx :=
 (* _finish_open_request (synchronous session object).  When the connection went away in between,
    the session object is told connection_lost(None) (5e4160a) and dropped. *)
 Definition finish_open (c : nat) (x : cx) : cx :=
-  if reg (x_ch x)
-  then upc (fun ch => set_handle true (addlog CbMade (set_rs ROpen (set_ss SOpen (set_se SLive ch)))))
-           (xp (KtConfirm c) x)
-  else xk (KChanCleanup c false)
-          (match se (x_ch x) with
-           | SNone => upc (fun ch => addlog (CbLost false) (set_se SGone ch)) x
-           | _ => x
-           end).
+  match se (x_ch x), pc (x_ch x) with
+  | SNone, CNone =>
+      if reg (x_ch x)
+      then upc (fun ch => set_handle true (addlog CbMade (set_rs ROpen (set_ss SOpen (set_se SLive ch)))))
+               (xp (KtConfirm c) x)
+      else xk (KChanCleanup c false) (upc (fun ch => addlog (CbLost false) (set_se SGone ch)) x)
+  | _, _ => x                                (* the task runs once, on a channel opened by the peer *)
+  end.
 
 (* awaited calls of the application on a channel it holds *)
 Definition chan_wait_closed (c : nat) (x : cx) : cx :=
@@ -486,6 +486,8 @@ Definition pc_pot (p : cpc) : nat :=
   | CReqRes StFinal _ => 2
   | CNone | CDone _ => 0
   end.
+Definition pc_queued (p : cpc) : bool :=
+  match p with CStart | COpenRes _ | CReqRes _ _ => true | _ => false end.
 Definition kont_pot (k : kont) : nat :=
   match k with KStartReading _ | KFinishOpen _ => 2 | _ => 1 end.
 Definition sum_of {A} (f : A -> nat) (l : list A) : nat := fold_right (fun a n => f a + n) 0 l.
